@@ -56,7 +56,7 @@ var steps = []int64{10, 15, 30, 60, 60, 300, 300, 300, 420, 660, 900, 1800, 2700
 
 func draw(rt *rapid.T) Scenario {
 	var sc Scenario
-	n := rapid.IntRange(1, 3).Draw(rt, "nscheds")
+	n := rapid.IntRange(1, detsim.Scale(3, 5)).Draw(rt, "nscheds")
 	for i := 0; i < n; i++ {
 		sc.Scheds = append(sc.Scheds, detsim.DrawSched(rt, 400))
 	}
